@@ -646,7 +646,7 @@ JsonEff(ly, lf, mu, carrier) ==
     [] mu.m = "str"    -> IF ly = "encreq" /\ lf.a = "b64inner" THEN E("err")       \* AES-GCM tag fails
                           ELSE JsonStrEff(lf.a, mu.a)
     [] mu.m = "num"    -> IF lf.n = "/params/args/max_outputs" /\ mu.a = "zero"
-                          THEN PanicAt("selection.rs::select_coins#windows-zero")   \* decoded; the operation then calls eligible.windows(0) (C01)
+                          THEN Havoc_Semantics      \* decoded; what coin selection does with max_outputs = 0 is C01's business (eligible.windows(0))
                           ELSE JsonNumEff(lf.a, mu.a)
     [] mu.m = "deep"   -> E("err")                                                 \* wrong type, or serde_json's recursion limit
     [] mu.m = "arr"    -> IF lf.a = "arr" THEN E("cont")           \* sigs / coms: any number of well-formed elements
